@@ -30,7 +30,7 @@ func (db *mDB) clone() *mDB {
 	// the lazily populated table of initial (symbolic) volumes is shared on purpose:
 	// a copy stands for the same ledger at an earlier/alternative point of its history
 	return &mDB{ledger: db.ledger, committed: db.committed.clone(), txSeq: db.txSeq, logSeq: db.logSeq,
-		symbolicInitial: db.symbolicInitial, initial: db.initial, state: db.state}
+		symbolicInitial: db.symbolicInitial, initial: db.initial, txOfThread: map[int]*mStore{}}
 }
 
 func sortedKeys[V any](m map[string]V) []string {
